@@ -68,6 +68,8 @@ struct GateState {
 
 pub struct RunOut {
     pub ready_dispatches: u64,
+    /// timing observation only: dispatches that had to wait for the real compile
+    pub waited: u64,
     pub trace: Vec<String>,
     pub cells: usize,
     pub log: Vec<(usize, u32, bool, bool)>,
@@ -112,7 +114,8 @@ fn run_design(d: &Design, sc: &Scenario, aot: bool) -> RunOut {
                     if visible && ev.hash == 0 {
                         s.waited_not_ready += 1;
                     }
-                    if visible && ev.hash == 1 {
+                    if visible {
+                        // served by the compiled artifact: ready on arrival, or waited for
                         s.ready_dispatches += 1;
                     }
                     // 0 = pretend not ready; 2 = wait until really ready, then use it
@@ -172,20 +175,21 @@ fn run_design(d: &Design, sc: &Scenario, aot: bool) -> RunOut {
             sim::set_thread_handler(None);
             let st = state.borrow();
             match r {
-                Ok(Ok(trace)) => RunOut { ready_dispatches: st.ready_dispatches, trace, cells: st.cells.len(), log: st.log.clone(), error: None },
-                Ok(Err(e)) => RunOut { ready_dispatches: 0, trace: vec![], cells: 0, log: vec![], error: Some(e) },
+                Ok(Ok(trace)) => RunOut { ready_dispatches: st.ready_dispatches, waited: st.waited_not_ready, trace, cells: st.cells.len(), log: st.log.clone(), error: None },
+                Ok(Err(e)) => RunOut { ready_dispatches: 0, waited: 0, trace: vec![], cells: 0, log: vec![], error: Some(e) },
                 Err(p) => {
                     let msg = p.downcast_ref::<String>().cloned().or_else(|| p.downcast_ref::<&str>().map(|s| s.to_string())).unwrap_or("panic".into());
-                    RunOut { ready_dispatches: 0, trace: vec![], cells: st.cells.len(), log: st.log.clone(), error: Some(format!("panic: {msg}")) }
+                    RunOut { ready_dispatches: 0, waited: 0, trace: vec![], cells: st.cells.len(), log: st.log.clone(), error: Some(format!("panic: {msg}")) }
                 }
             }
         })
         .unwrap();
-    handle.join().unwrap_or(RunOut { ready_dispatches: 0, trace: vec![], cells: 0, log: vec![], error: Some("thread died".into()) })
+    handle.join().unwrap_or(RunOut { ready_dispatches: 0, waited: 0, trace: vec![], cells: 0, log: vec![], error: Some("thread died".into()) })
 }
 
 pub struct Outcome {
     pub ready_dispatches: u64,
+    pub waited: u64,
     pub violation: Option<(String, String)>,
     pub cells: usize,
     pub log: Vec<(usize, u32, bool, bool)>,
@@ -195,19 +199,19 @@ pub struct Outcome {
 pub fn run(sc: &Scenario, refs: &mut BTreeMap<String, Vec<String>>) -> Outcome {
     let ds = designs();
     let Some(d) = ds.iter().find(|d| d.name == sc.design) else {
-        return Outcome { ready_dispatches: 0, violation: None, cells: 0, log: vec![], harness_error: Some(format!("unknown design {}", sc.design)) };
+        return Outcome { ready_dispatches: 0, waited: 0, violation: None, cells: 0, log: vec![], harness_error: Some(format!("unknown design {}", sc.design)) };
     };
     let rkey = format!("{}|{}|{}|{}", sc.design, sc.stim_seed, sc.steps, sc.reset_first);
     if !refs.contains_key(&rkey) {
         let r = run_design(d, sc, false);
         if let Some(e) = r.error {
-            return Outcome { ready_dispatches: 0, violation: None, cells: 0, log: vec![], harness_error: Some(format!("reference run of {}: {e}", d.name)) };
+            return Outcome { ready_dispatches: 0, waited: 0, violation: None, cells: 0, log: vec![], harness_error: Some(format!("reference run of {}: {e}", d.name)) };
         }
         refs.insert(rkey.clone(), r.trace);
     }
     let out = run_design(d, sc, true);
     if let Some(e) = out.error {
-        return Outcome { ready_dispatches: 0, violation: Some(("panic-or-error-under-swap".into(), format!("{} swap_at={:?}: {e}", d.name, sc.swap_at))), cells: out.cells, log: out.log, harness_error: None };
+        return Outcome { ready_dispatches: 0, waited: 0, violation: Some(("panic-or-error-under-swap".into(), format!("{} swap_at={:?}: {e}", d.name, sc.swap_at))), cells: out.cells, log: out.log, harness_error: None };
     }
     let want = &refs[&rkey];
     let mut violation = None;
@@ -220,7 +224,7 @@ pub fn run(sc: &Scenario, refs: &mut BTreeMap<String, Vec<String>>) -> Outcome {
     if violation.is_none() && out.trace.len() != want.len() {
         violation = Some(("trace-length".to_string(), format!("{} lines vs {}", out.trace.len(), want.len())));
     }
-    Outcome { ready_dispatches: out.ready_dispatches, violation, cells: out.cells, log: out.log, harness_error: None }
+    Outcome { ready_dispatches: out.ready_dispatches, waited: out.waited, violation, cells: out.cells, log: out.log, harness_error: None }
 }
 
 fn gen_swaps(rng: &mut Rng, steps: usize) -> Vec<u32> {
@@ -313,14 +317,19 @@ fn main() {
             let steps = 8 + rng.below(40);
             let sc = Scenario { design: d.name.to_string(), stim_seed: 1 + rng.below(4) as u64, steps, swap_at: gen_swaps(&mut rng, steps), reset_first: rng.chance(2, 3) };
             let o = run(&sc, &mut refs);
-            out.push((sc, o));
+            out.push((i, sc, o));
             i += groups;
         }
         out
     });
     let mut distinct = BTreeSet::new();
     let mut samples = vec![];
-    for (sc, o) in results.into_iter().flatten() {
+    // in run-index order, whatever the number of workers
+    let mut results: Vec<(usize, Scenario, Outcome)> = results.into_iter().flatten().collect();
+    results.sort_by_key(|r| r.0);
+    let mut waited_total = 0u64;
+    for (_, sc, o) in results {
+        waited_total += o.waited;
         if let Some(e) = o.harness_error {
             eprintln!("harness error: {e}");
             exit = 2;
@@ -423,6 +432,7 @@ fn main() {
     let wall = start.elapsed().as_secs_f64();
     let mut extra = serde_json::Map::new();
     extra.insert("probes".into(), counters.to_json());
+    extra.insert("timing".into(), json!({"dispatches_that_waited_for_the_real_compile": waited_total}));
     extra.insert("runs_per_hour".into(), json!((total as f64 / wall * 3600.0) as u64));
     extra.insert("known_finding_hits".into(), json!(known_hits));
     extra.insert("components".into(), json!({"real": ["analyzer -> simulator IR -> Cranelift JIT and AOT-C emit", "cc", "the compile pool thread and the OnceLock publish", "try_dispatch / try_dispatch_const and the chunked fallback"], "simulated": ["the dispatch call at which each cell's artifact becomes visible (aot_gate seam); the hook waits for the real compile when it says visible"]}));
